@@ -683,7 +683,7 @@ def run_chunk(args):
             for ri, route in enumerate(ROUTES):
                 if route not in routes:
                     continue
-                if tier == "quick" and route != "instance" and \
+                if tier == "quick" and route not in ("instance", "default") and \
                         (ci * 7919 + vi * 104729 + ri * 31 + seed) % 8 != 0:
                     continue
                 v = eval(vsrc, _ns())
@@ -712,7 +712,8 @@ def run_chunk(args):
                     ev("C01/%s/installed-is-assigned" % c.T)
                     if not inst_ok:
                         fails.append(dict(base, kind="installed"))
-                if len(samples) < 2 and vi % 17 == 3 and route == "instance":
+                if len(samples) < 1 and vcls.startswith(("at-", "tuple-first-at", "none")) and route == "instance" \
+                        and ci % 5 == 3:
                     samples.append({"type": c.T, "cfg": cs, "value": vname, "route": route,
                                     "oracle": exp, "observed": outcome})
     return keys, fails, evals, samples
@@ -808,6 +809,23 @@ def make_replay(f, clause, witness):
 
 MAX_CLASSES_PER_CLAUSE = 6      # value classes reported per (type, kind); the rest is summarised in a note
 
+
+def _pmap(fn, jobs):
+    """Parallel map over the 16 cores; serial fallback when worker processes cannot be started."""
+    try:
+        ex = ProcessPoolExecutor(max_workers=16)
+    except (OSError, AssertionError, ValueError):
+        ex = None
+    if ex is not None:
+        try:
+            with ex:
+                return list(ex.map(fn, jobs))
+        except (OSError, AssertionError) as e:      # e.g. daemonic parent process
+            if "daemonic" not in str(e) and not isinstance(e, OSError):
+                raise
+    return [fn(j) for j in jobs]
+
+
 CLAUSE = {"rejected-valid": "accept<=>valid", "accepted-invalid": "accept<=>valid",
           "exc-class": "raises-only", "installed": "installed-is-assigned"}
 
@@ -825,7 +843,7 @@ def run(tier, seed):
               "%d global lattice values + up to 60 configuration-relative boundary values "
               "(at/below/above each bound, as int/float/Fraction, date and datetime at 1 day / 1 us) x "
               "6 routes (instance, constructor default, class, update, constructor kwarg, JSON deserialize "
-              "for JSON-native values); quick: instance route complete, other routes 1-in-8 slice by seed"
+              "for JSON-native values); quick: instance and constructor-default routes complete, other routes 1-in-8 slice by seed"
               % (len(all_configs()), len(GLOBAL)))
     cfgs = all_configs()
     n = len(cfgs)
@@ -834,14 +852,14 @@ def run(tier, seed):
     chunks = [(list(range(i, n, nchunks)), tier, seed) for i in range(nchunks)]
     chunks = [c for c in chunks if c[0]]
     all_fails = []
-    with ProcessPoolExecutor(max_workers=16) as ex:
-        for keys, fails, evals, samples in ex.map(run_chunk, chunks):
-            for k in keys:
-                B.case(key=k)
-            for cl, m in evals.items():
-                B.checked(cl, m)
-            all_fails.extend(fails)
-            for s in samples:
+    for keys, fails, evals, samples in _pmap(run_chunk, chunks):
+        for k in keys:
+            B.case(key=k)
+        for cl, m in evals.items():
+            B.checked(cl, m)
+        all_fails.extend(fails)
+        for s in samples[:1]:
+            if len(B.samples) < 6 and all(x["type"] != s["type"] for x in B.samples):
                 B.sample(s)
     # ---- normalise: one witness per (type, kind, value class); smallest configuration, first route
     groups = {}
@@ -885,6 +903,13 @@ def run(tier, seed):
     for ck in sorted(suppressed):
         B.note("%d further value classes failing for type=%s kind=%s not listed (cap %d per type and kind)"
                % (suppressed[ck], ck[1], ck[0], MAX_CLASSES_PER_CLAUSE))
+    ce = B.contract_evals
+    decided = sum(v for k, v in ce.items() if k.endswith("accept<=>valid"))
+    attempts = sum(v for k, v in ce.items() if k.endswith("raises-only"))
+    B.note("oracle verdicts: %d attempts, %d decided by the statement (accept or reject demanded), %d undecided "
+           "(exception class only); %d successful attempts had their installed object compared by identity"
+           % (attempts, decided, attempts - decided,
+              sum(v for k, v in ce.items() if k.endswith("installed-is-assigned"))))
     B.note("out of scope (DESIGN 7/C01): callables given to Dynamic-derived types, Decimal NaN, "
            "file-system/array types; undecided by the statement (only exception class checked): bool "
            "for Number/Integer, None on the constructor-default route, reversed or mixed date ranges, "
